@@ -126,6 +126,34 @@ def table_cases(thorough: bool = True) -> List[Tuple[str, str, Dict[str, Any]]]:
             out.append(("aggregate", "jet", X.form_agg(seed, {"plain": v})))
         out.append(("aggregate", "jet", X.form_agg(seed, {"plain": X.binop("Add", acc, X.binop("Div", X.leaf("jet", "i"), X.int_lit(2)))})))
         out.append(("aggregate", "jet", X.form_agg(seed, {"plain": X.binop("Add", X.binop("Mod", acc, X.int_lit(3)), X.leaf("jet", "i"))})))
+    # negative integer exponents (a constant, a negated integer value): the power is a fraction
+    for exp_ in (X.unop("USub", X.int_lit(1)), X.unop("USub", X.int_lit(2)), X.unop("USub", X.leaf("jet", "i2"))):
+        for base in (X.int_lit(4), X.leaf("jet", "i"), X.leaf("jet", "f"), X.leaf("jet", "d")):
+            out.append(("neg-exponent", "jet", X.form_plain(X.binop("Pow", base, exp_))))
+        out.append(("neg-exponent", "jet", X.form_agg(X.int_lit(0), {"plain": X.binop("Add", acc, X.binop("Pow", X.int_lit(2), exp_ if "leaf" in exp_["un"][1] else X.unop("USub", X.leaf("jet", "i"))))})))
+    out.append(("neg-exponent", "jet", X.form_agg(X.int_lit(0), {"plain": X.binop("Add", acc, X.binop("Pow", X.leaf("jet", "i"), X.unop("USub", X.int_lit(1))))})))
+    for base in (X.count_leaf("J1"), X.count_leaf("J"), X.sum_leaf("i"), X.leaf("evt", "i")):
+        out.append(("neg-exponent", "evt", X.form_plain(X.binop("Pow", base, X.unop("USub", X.int_lit(2))))))
+        out.append(("neg-exponent", "evt", X.form_plain(X.binop("Pow", X.int_lit(2), X.unop("USub", base)))))
+    # several aggregates in one expression / one query: an int-typed result must not depend on what was computed before it
+    cj, c1 = X.count_leaf("J"), X.count_leaf("J1")
+    si, sf, sd = X.sum_leaf("i"), X.sum_leaf("f"), X.sum_leaf("d")
+    three, two = X.int_lit(3), X.int_lit(2)
+    for e in (
+        X.binop("Add", sd, cj), X.binop("Add", cj, sd), X.binop("Add", sd, X.binop("Mod", cj, three)),
+        X.binop("Add", X.binop("Mod", cj, three), sd), X.binop("Div", sd, cj), X.binop("Div", cj, two), X.binop("Mod", si, three),
+        X.binop("Mult", sf, two), X.binop("Sub", sf, si), X.binop("Add", X.binop("Add", sd, sf), X.binop("Mod", c1, two)),
+        X.cmpop("Gt", sd, cj), X.binop("Add", X.binop("Add", sd, X.int_lit(0)), X.binop("Mod", X.binop("Add", cj, X.int_lit(0)), three)),
+    ):
+        out.append(("several-aggregates", "evt", X.form_plain(e)))
+    for cols in (
+        [sd, cj], [cj, sd], [sd, X.binop("Mod", cj, three)], [X.binop("Mod", cj, three), sd], [sf, cj, si], [si, sd, cj],
+        [sd, X.binop("Div", c1, two), X.binop("Mod", cj, two)], [X.binop("Add", X.flt_lit(2.5), X.leaf("evt", "d")), cj, X.binop("Mod", X.leaf("evt", "i"), three)],
+        [sd, X.binop("Add", X.leaf("evt", "i"), X.int_lit(0)), cj], [sd, sf, X.binop("Add", cj, X.int_lit(1))],
+        [X.binop("Add", sd, X.int_lit(1)), X.binop("Add", c1, X.int_lit(1)), X.binop("Mod", X.binop("Add", cj, X.int_lit(1)), three)],
+    ):
+        for f in X.row_forms(cols):
+            out.append(("multi-column", "evt", f))
     return out
 
 
@@ -135,7 +163,10 @@ def random_cases(rng, n: int) -> List[Tuple[str, str, Dict[str, Any]]]:
         level = "jet" if rng.random() < 0.75 else "evt"
         d = rng.choice([2, 2, 3])
         c = rng.random()
-        if c < 0.7:
+        if c < 0.08:
+            for f in X.row_forms([X.random_expr(rng, "evt", 1) for _ in range(rng.choice([2, 3]))]):
+                out.append(("random-row", "evt", f))
+        elif c < 0.7:
             out.append(("random", level, X.form_plain(X.random_expr(rng, level, d))))
         elif c < 0.9:
             t = X.cmpop(rng.choice(list(X.CMP_OPS)), X.random_expr(rng, level, 1), X.random_expr(rng, level, 1))
@@ -148,20 +179,47 @@ def random_cases(rng, n: int) -> List[Tuple[str, str, Dict[str, Any]]]:
     return out
 
 
+def safe_random_cases(rng, n: int) -> List[Tuple[str, str, Dict[str, Any]]]:
+    """random cases inside the sample-safe region; the columns of a row are kept or dropped together"""
+    out: List[Tuple[str, str, Dict[str, Any]]] = []
+    groups: Dict[str, List] = {}
+    order: List[str] = []
+    for c in random_cases(rng, n * 2):
+        g = c[2].get("_rowquery", "single:%d" % len(order))
+        if g not in groups:
+            groups[g] = []
+            order.append(g)
+        groups[g].append(c)
+    for g in order:
+        if len(out) >= n:
+            break
+        if all(pow_safe(c[2]) and f32_safe(c[2]) for c in groups[g]):
+            out += groups[g]
+    return out
+
+
 def pow_safe(form) -> bool:
-    """`**` only with an exponent that is a small non-negative integer (literal or the i2 / d2 / f2 accessor of the
-    power rows) keeps Python inside the reals and the powers exact; everything else about `**` is C12's libm."""
+    """`**` only with an exponent that is a small integer - a literal, the i2 / f2 / d2 accessor of the power rows, or
+    the NEGATION of an integer literal / of i2 (negative integer exponents: a fraction) - keeps Python inside the reals;
+    everything else about `**` is C12's libm."""
+
+    def good_exp(r, neg_ok=True) -> bool:
+        if "int" in r:
+            return 0 <= r["int"] <= 7
+        if "flt" in r:
+            return r["_val"] in (2.0, 3.0, 1.0)
+        if "leaf" in r:
+            return r["leaf"][1].endswith(("->i2()", "->f2()", "->d2()"))
+        if "un" in r and r["un"][0] == "USub" and neg_ok:
+            x = r["un"][1]
+            return ("int" in x and 0 <= x["int"] <= 3) or ("leaf" in x and x["leaf"][1].endswith("->i2()"))
+        return False
 
     def ok(e) -> bool:
         if isinstance(e, dict):
-            if "bin" in e and e["bin"][0] == "Pow":
-                r = e["bin"][2]
-                good = ("int" in r and 0 <= r["int"] <= 7) or ("flt" in r and r["_val"] in (2.0, 3.0, 1.0)) or (
-                    "leaf" in r and r["leaf"][1].endswith(("->i2()", "->f2()", "->d2()"))
-                )
-                if not good:
-                    return False
-            return all(ok(v) for v in e.values())
+            if "bin" in e and e["bin"][0] == "Pow" and not good_exp(e["bin"][2]):
+                return False
+            return all(ok(v) for k, v in e.items() if not k.startswith("_"))
         if isinstance(e, list):
             return all(ok(v) for v in e)
         return True
@@ -192,18 +250,19 @@ def samples_for(form, level) -> Tuple[List[Any], List[Any]]:
     if level == "jet":
         return [X.env_from_row(r, "jet") for r in rows], [("jet", r) for r in rows]
     cs = X.COUNTS[: len(rows)]
-    return [X.env_from_row(r, "evt", c) for r, c in zip(rows, cs)], [("evt", r, c) for r, c in zip(rows, cs)]
+    js = [X.jrows_for(rows, k) for k in range(len(rows))]
+    return [X.env_from_row(r, "evt", c, j) for r, c, j in zip(rows, cs, js)], [("evt", r, c, j) for r, c, j in zip(rows, cs, js)]
 
 
 def cpython_value(form, level, desc):
-    q = X.form_src(form, level)
+    q = X.form_src(form, level)  # a column of a row alone: Python's value does not depend on the other columns
     if desc[0] == "agg":
         return pyref.evaluate(q, pyref.Event({"J": desc[1]}))
     if desc[0] == "jet":
         r = pyref.evaluate(q, pyref.Event({"J": [desc[1]]}))
         return r[0] if isinstance(r, list) else r
     dummy = X.ROWS_GENERAL[0]
-    return pyref.evaluate(q, pyref.Event({"J1": [dummy] * desc[2][0], "J2": [dummy] * desc[2][1]}, ei=desc[1]))
+    return pyref.evaluate(q, pyref.Event({"J1": [dummy] * desc[2][0], "J2": [dummy] * desc[2][1], "J": list(desc[3])}, ei=desc[1]))
 
 
 # ------------------------------------------------------------------------------------------------------------ one batch
@@ -214,8 +273,15 @@ def clean(form):
 def evaluate_cases(ctx, cases, judge_excluded: bool = False, observed: Optional[Dict[int, List[Any]]] = None):
     """Run real code, model and Spec for a list of (stream, level, form). Returns a list of result dicts."""
     impls = []
+    rowcache: Dict[str, List[Dict[str, Any]]] = {}
     for stream, level, form in cases:
-        impls.append(real.run(form, level))
+        if "_rowquery" in form:
+            q = form["_rowquery"]
+            if q not in rowcache:
+                rowcache[q] = real.run_row(form["_rowforms"], level, q)
+            impls.append(rowcache[q][form["_col"]])
+        else:
+            impls.append(real.run(form, level))
     ctx.check_time()
     reqs = []
     metas = []
@@ -229,28 +295,46 @@ def evaluate_cases(ctx, cases, judge_excluded: bool = False, observed: Optional[
         elif "unreadable" in r:
             reqs.append({"op": "facts", **clean(form)})
         else:
-            leaves = X.leaves_of(form) + [["R", r["spec"].get("resTy", "double"), X.IF_SLOT]]
-            if form["form"] == "agg":
-                leaves = [l for l in leaves if l[0] != "A"] + [["A", r["spec"]["accTy"], X.ACC_SLOT]]
-            q = {"op": "spec", **clean(form), "impl": r["spec"], "leaves": leaves, "samples": sm}
+            q = {"op": "spec", **clean(form), "impl": r["spec"], "leaves": impl_leaves(form, r), "samples": sm}
             if observed is not None and idx in observed:
                 q["observed"] = observed[idx]
             reqs.append(q)
         metas.append((sm, desc))
     ans = ctx.driver(DRIVER, reqs)
+    # one refused column refuses the whole row: the refusal is tolerated when ANY column is outside what must be accepted
+    row_ok: Dict[str, bool] = {}
+    for i, (stream, level, form) in enumerate(cases):
+        if "_rowquery" in form and isinstance(ans[2 * i + 1], dict):
+            row_ok[form["_rowquery"]] = row_ok.get(form["_rowquery"], True) and bool(ans[2 * i + 1].get("mustAccept", True))
+    row_err: Dict[str, Any] = {}
+    for i, (stream, level, form) in enumerate(cases):
+        if "_rowquery" in form and isinstance(ans[2 * i], dict) and "err" in ans[2 * i]:
+            row_err.setdefault(form["_rowquery"], ans[2 * i])
+    for i, (stream, level, form) in enumerate(cases):
+        if "_rowquery" in form and "err" in impls[i] and not row_ok.get(form["_rowquery"], True) and isinstance(ans[2 * i + 1], dict):
+            ans[2 * i + 1]["holds"] = True
+        if "_rowquery" in form and form["_rowquery"] in row_err:
+            ans[2 * i] = row_err[form["_rowquery"]]  # the model refuses the whole query too
     out = []
     for i, ((stream, level, form), r, (sm, desc)) in enumerate(zip(cases, impls, metas)):
         out.append({"stream": stream, "level": level, "form": form, "impl": r, "model": ans[2 * i], "spec": ans[2 * i + 1], "samples": sm, "desc": desc})
     return out
 
 
-def spec_request(res, observed):
-    """the driver's `spec` op on the values the compiled job printed"""
-    form, r = res["form"], res["impl"]
+def impl_leaves(form, r):
+    """operand table for the Lean parser of the implementation's text: the variables the implementation declares
+    (conditional result, accumulator, aggregate operands) carry the type IT declared them with"""
     leaves = X.leaves_of(form) + [["R", r["spec"].get("resTy", "double"), X.IF_SLOT]]
     if form["form"] == "agg":
         leaves = [l for l in leaves if l[0] != "A"] + [["A", r["spec"]["accTy"], X.ACC_SLOT]]
-    return {"op": "spec", **clean(form), "impl": r["spec"], "leaves": leaves, "samples": res["samples"], "observed": observed}
+    lt = r.get("leaf_types", {})
+    return [[t, lt.get(t, ty), slot] for t, ty, slot in leaves]
+
+
+def spec_request(res, observed):
+    """the driver's `spec` op on the values the compiled job printed"""
+    form, r = res["form"], res["impl"]
+    return {"op": "spec", **clean(form), "impl": r["spec"], "leaves": impl_leaves(form, r), "samples": res["samples"], "observed": observed}
 
 
 def judge_spec(ctx, res, s, observed):
@@ -262,8 +346,8 @@ def judge_spec(ctx, res, s, observed):
             ctx.violation(
                 key=key,
                 what="compiled job: " + s["why"],
-                case={"level": level, "form": form, "query": X.form_src(form, level)},
-                observed={"column_type": r["ty"], "emitted": r["lines"] + [r["fill"]], "g++ values": observed, "rows": s.get("rows")},
+                case={"level": level, "form": form, "query": X.query_src(form, level)},
+                observed={"column_type": r["ty"], "emitted": r.get("leaf_decls", []) + r["lines"] + [r["fill"]], "g++ values": observed, "rows": s.get("rows")},
                 how=HOW,
             )
 
@@ -325,7 +409,7 @@ def judge(ctx, res, known_stream: bool = False) -> Optional[Dict[str, Any]]:
     cm = canon_lines(canon_refusal(real.canon_model(m, form)))
     if not known_stream:
         if ci != cm:
-            ctx.disagreement("translate", {"level": level, "query": X.form_src(form, level), "form": form}, cm, ci)
+            ctx.disagreement("translate", {"level": level, "query": X.query_src(form, level), "form": form}, cm, ci)
     if "unreadable" in r or "frontend" in r:
         return None
     excluded = bool(s.get("excluded"))
@@ -335,19 +419,19 @@ def judge(ctx, res, known_stream: bool = False) -> Optional[Dict[str, Any]]:
             viol = {"what": s["why"], "observed": {"exception": r["err"], "message": r.get("msg")}}
     else:
         if s.get("holds") is None and not excluded and not known_stream:
-            ctx.disagreement("spec-uninterpretable", {"level": level, "query": X.form_src(form, level)}, None, s.get("why"))
+            ctx.disagreement("spec-uninterpretable", {"level": level, "query": X.query_src(form, level)}, None, s.get("why"))
         if s.get("holds") is False and (not excluded or known_stream):
-            viol = {"what": s["why"], "observed": {"column_type": r["ty"], "emitted": r["lines"] + [r["fill"]], "rows": s.get("rows")}}
+            viol = {"what": s["why"], "observed": {"column_type": r["ty"], "emitted": r.get("leaf_decls", []) + r["lines"] + [r["fill"]], "rows": s.get("rows")}}
         # tie of evalPy to CPython, of evalC to the observed values
         # (Python's float % is only approximated by the driver's Num instance; it occurs in excluded cells only)
         if not known_stream and not (excluded and "Mod" in X.ops_of(form)):
             for k, (row, d) in enumerate(zip(s.get("rows", []), res["desc"])):
                 cp = cpython_value(form, level, d)
                 if (row["cpy"] or None) != cp and pow_safe(form):
-                    ctx.disagreement("evalPy-vs-CPython", {"query": X.form_src(form, level), "sample": k}, row["cpy"], cp)
+                    ctx.disagreement("evalPy-vs-CPython", {"query": X.query_src(form, level), "sample": k}, row["cpy"], cp)
                     break
     if viol is not None:
-        viol.update({"key": key, "case": {"level": level, "form": form, "query": X.form_src(form, level)}})
+        viol.update({"key": key, "case": {"level": level, "form": form, "query": X.query_src(form, level)}})
     return viol
 
 
@@ -376,7 +460,7 @@ def run(ctx):
     cases = [("corpus", c["level"], c["form"]) for c in vlib.corpus_cases(ID)]
     cases += table_cases(ctx.tier == "thorough")
     nrand = QUICK_RANDOM if ctx.tier == "quick" else THOROUGH_RANDOM
-    cases += [c for c in random_cases(ctx.rng, nrand * 2) if pow_safe(c[2]) and f32_safe(c[2])][:nrand]
+    cases += safe_random_cases(ctx.rng, nrand)
     results = [r for r in evaluate_cases(ctx, cases) if not (("frontend" in r["impl"]) and not ctx.count("skipped:func_adl-front-end-refusal"))]
     known_keys = {e["key"] for e in ctx.known_entries("known")}
     accepted = []
@@ -393,7 +477,7 @@ def run(ctx):
         for op in set(X.ops_of(form)):
             ctx.count("op:" + op)
         nontrivial = "err" not in r and bool(X.ops_of(form))
-        ctx.case(key, nontrivial, {"query": X.form_src(form, level), "implementation": real.canon_impl(r), "spec": {k: s.get(k) for k in ("holds", "why", "excluded")} if isinstance(s, dict) else s})
+        ctx.case(key, nontrivial, {"query": X.query_src(form, level), "implementation": real.canon_impl(r), "spec": {k: s.get(k) for k in ("holds", "why", "excluded")} if isinstance(s, dict) else s})
         v = judge(ctx, res)
         if v is not None and v["key"] not in known_keys:
             ctx.violation(key=v["key"], what=v["what"], case=v["case"], observed=v["observed"], how=HOW)
@@ -451,7 +535,7 @@ def sub_forms(form) -> List[Dict[str, Any]]:
 def search(ctx, broken):
     """Something no longer checks: sweep the table and a larger random sample with the Spec (evaluated on the
     implementation) as the only judge; shrink the first hit."""
-    cases = table_cases() + [c for c in random_cases(ctx.rng, 1600) if pow_safe(c[2]) and f32_safe(c[2])][:600]
+    cases = table_cases() + safe_random_cases(ctx.rng, 600)
     known_keys = {e["key"] for e in ctx.known_entries("known")}
     saved = (ctx.broken[:], dict(ctx.dist))
     best = None
@@ -484,7 +568,7 @@ def search(ctx, broken):
 def replay(ctx, rep) -> int:
     case = rep["case"]
     res = evaluate_cases(ctx, [("replay", case["level"], case["form"])])[0]
-    print("query:", X.form_src(case["form"], case["level"]))
+    print("query:", X.query_src(case["form"], case["level"]))
     print("implementation:", json.dumps(real.canon_impl(res["impl"])))
     print("model:", json.dumps(real.canon_model(res["model"], case["form"])))
     s = res["spec"]
